@@ -205,4 +205,13 @@ func init() {
 		Assumptions: []string{"'never blocks' is decided as bounded progress: no store/API progress and no CPU time for 90 s with a call outstanding", "callbacks do not re-enter the DB"},
 		Uses: []core.Use{{E: eSweep, Quick: 60, Thorough: 1500}, {E: eGeneral, Quick: 40, Thorough: 600}},
 	})
+
+	eFault := &core.Engine{Name: "fault", Run: RunFault}
+	eInvalid := &core.Engine{Name: "invalid-input", Run: RunInvalid}
+	core.Register(&core.PropSpec{
+		ID: "C04", Level: "fault_enumeration",
+		Rule: "for 36 operations (the sixteen write kinds in several variants and every read) on database shapes {empty, 8 docs x 0/1/3 indexes, 60 (thorough 300) docs x 2 indexes} x backends: the operation's store-call trace is learnt on a dry run, then for EVERY listed call position (begin, get, set, delete, cursor item read, commit; exhaustive up to 90 / 260 positions per operation, otherwise first 25 + last 25 + a seeded sample, reported per scenario in exhaustive_parts) the call fails with a marker error, one-shot and sticky; asserted: a non-nil error is returned (reads too), the raw store is byte-identical to the snapshot taken before, no transaction stays open, and follow-up write/read calls work. Invalid-input failures (offending document at batch position 0/2/4, update yielding an invalid document at the first/middle/last selected one with and without sort/skip/limit, missing or existing collection/index/document for every operation, failing imports) use the same before/after snapshot. evaluations = fault runs + invalid-input scenarios; a cell is <operation|failing call kind|phase before-first-write/between-writes/at-commit/at-begin|mode|backend> or <invalid scenario|#indexes|backend>.",
+		Assumptions: []string{"store failures are modelled at the store.Store seam: the k-th call returns an error (sticky: so does every later call of that transaction; a failing Commit rolls the inner transaction back)"},
+		Uses: []core.Use{{E: eFault, Quick: 10, Thorough: 45}, {E: eInvalid, Quick: 40, Thorough: 600}},
+	})
 }
